@@ -242,6 +242,40 @@ macro_rules! extra_ops {
     }};
 }
 
+/// coordinate accessors and constructors of CurveExt (points with z != 1: results of additions)
+macro_rules! jacobian_ops {
+    ($log:expr, $P:ty, $pts:expr, $to_j:expr, $fb:expr, $nine:expr, $tw7:expr, $three:expr) => {{
+        use midnight_curves::CurveExt;
+        let log = $log;
+        let to_j = $to_j;
+        let fb = $fb;
+        let g = <$P>::generator();
+        for (k, p) in $pts.iter() {
+            let q = *p + g - g;
+            log.op("jacobian", vec![to_j(&q)], vec![], || {
+                let (x, y, z) = q.jacobian_coordinates();
+                json!({"X":fb(&x),"Y":fb(&y),"Z":fb(&z),"dlog":k})
+            });
+            log.op("new_jacobian_roundtrip", vec![to_j(&q)], vec![], || {
+                let (x, y, z) = q.jacobian_coordinates();
+                let r: Option<$P> = <$P>::new_jacobian(x, y, z).into();
+                json!({"some":r.is_some(),"point":r.map(|r| to_j(&r))})
+            });
+            log.op("new_jacobian_scaled", vec![to_j(&q)], vec![], || {
+                // (x, y, 1) scaled by lambda = 3: (9x, 27y, 3) names the same point
+                let (x1, y1, z1) = <$P>::from(q.to_affine()).jacobian_coordinates();
+                let _ = z1;
+                let r: Option<$P> = <$P>::new_jacobian(x1 * $nine, y1 * $tw7, $three).into();
+                json!({"some":r.is_some(),"point":r.map(|r| to_j(&r))})
+            });
+        }
+    }};
+}
+
+fn q2j(c0: BigUint, c1: BigUint) -> J {
+    json!([nat_of_big(&c0), nat_of_big(&c1)])
+}
+
 pub fn main(args: &[String]) -> i32 {
     let mut out = util::create(&args[0]);
     let which = args.get(1).map(|s| s.as_str()).unwrap_or("all").to_string();
@@ -346,7 +380,65 @@ pub fn main(args: &[String]) -> i32 {
         extra_ops!(&mut log, bn256::G1, bn256::G1Affine, bn256::Fr, r, to_j);
         let g = bn256::G1::generator();
         let pts: Vec<(i64, bn256::G1)> = DLOGS.iter().map(|k| (*k, g * scalar_i::<bn256::Fr>(*k))).collect();
+        let fb = |x: &bn256::Fq| nat_of_big(&le_big(x));
+        let f = |n: u64| bn256::Fq::from(n);
+        jacobian_ops!(&mut log, bn256::G1, pts, to_j, fb, f(9), f(27), f(3));
         codec::<bn256::G1, bn256::G1Affine>(&mut log, &pts, &to_j, true);
+    }
+    if which == "all" || which == "bls12_381_g2" {
+        use midnight_curves::{bls12_381::Fp2, G2Affine, G2Projective};
+        let mut log = Log { out: &mut out, curve: "bls12_381_g2" };
+        let fb = |x: &Fp2| q2j(x.c0().to_biguint(), x.c1().to_biguint());
+        let to_j = |p: &G2Projective| {
+            if bool::from(p.is_identity()) {
+                json!({"id":true,"x":[[],[]],"y":[[],[]]})
+            } else {
+                let a = p.to_affine();
+                json!({"id":false,"x":fb(&a.x()),"y":fb(&a.y())})
+            }
+        };
+        let r = <BlsFr as CircuitField>::modulus();
+        let g = G2Projective::generator();
+        log.op("g2_constants", vec![to_j(&g)], vec![], || json!({"generator":to_j(&g)}));
+        common_ops!(&mut log, G2Projective, G2Affine, BlsFr, r, to_j);
+        extra_ops!(&mut log, G2Projective, G2Affine, BlsFr, r, to_j);
+        for (a, b) in pairs() {
+            let (p, q) = (g * scalar_i::<BlsFr>(a), g * scalar_i::<BlsFr>(b));
+            let (pa, qa) = (p.to_affine(), q.to_affine());
+            let ins = vec![to_j(&p), to_j(&q)];
+            log.op("add", ins.clone(), vec![], || to_j(&(&pa + &q)));
+            log.op("add", ins.clone(), vec![], || to_j(&(&p + &qa)));
+            log.op("sub", ins.clone(), vec![], || to_j(&(&pa - &q)));
+            log.op("sub", ins.clone(), vec![], || to_j(&(&p - &qa)));
+        }
+        let pts: Vec<(i64, G2Projective)> = DLOGS.iter().map(|k| (*k, g * scalar_i::<BlsFr>(*k))).collect();
+        let f = |n: u64| Fp2::from(n);
+        jacobian_ops!(&mut log, G2Projective, pts, to_j, fb, f(9), f(27), f(3));
+        codec::<G2Projective, G2Affine>(&mut log, &pts, &to_j, true);
+    }
+    if which == "all" || which == "bn256_g2" {
+        let mut log = Log { out: &mut out, curve: "bn256_g2" };
+        let fb = |x: &bn256::Fq2| {
+            let b = x.to_bytes();
+            q2j(BigUint::from_bytes_le(&b[0..32]), BigUint::from_bytes_le(&b[32..64]))
+        };
+        let to_j = |p: &bn256::G2| {
+            if bool::from(p.is_identity()) {
+                json!({"id":true,"x":[[],[]],"y":[[],[]]})
+            } else {
+                let a = p.to_affine();
+                json!({"id":false,"x":fb(&a.x),"y":fb(&a.y)})
+            }
+        };
+        let r = BigUint::from_bytes_le(&(-bn256::Fr::ONE).to_repr().as_ref().to_vec()) + BigUint::from(1u8);
+        let g = bn256::G2::generator();
+        log.op("g2_constants", vec![to_j(&g)], vec![], || json!({"generator":to_j(&g)}));
+        common_ops!(&mut log, bn256::G2, bn256::G2Affine, bn256::Fr, r, to_j);
+        extra_ops!(&mut log, bn256::G2, bn256::G2Affine, bn256::Fr, r, to_j);
+        let pts: Vec<(i64, bn256::G2)> = DLOGS.iter().map(|k| (*k, g * scalar_i::<bn256::Fr>(*k))).collect();
+        let f = |n: u64| bn256::Fq2::from(n);
+        jacobian_ops!(&mut log, bn256::G2, pts, to_j, fb, f(9), f(27), f(3));
+        codec::<bn256::G2, bn256::G2Affine>(&mut log, &pts, &to_j, true);
     }
     let _ = (curve25519::CURVE_D, le_big::<BlsFr>);
     0
